@@ -213,6 +213,18 @@ func (x *Exec) mutexOp(st *State, recv *Value, lock bool, at *ast.CallExpr) {
 	if !ok {
 		return
 	}
+	if ref.Op == "app" && ref.Name == "fieldaddr.dataStore.mu" {
+		if gt, ok := x.eng.cf.Ghosts["held"]; ok {
+			cur := x.ghostGlobal(st, "held", gt)
+			if lock {
+				x.safety(st, "relock", at, x.b.Not(cur.scalar()))
+			} else {
+				x.safety(st, "unlock-unheld", at, cur.scalar())
+			}
+			x.setGhostGlobal(st, "held", scalarV(cur.T, x.b.Bool(lock)))
+			return
+		}
+	}
 	key := "ghost.mutexHeld"
 	arr := x.heapArr(st, key, BoolSort)
 	held := x.b.Select(arr, ref)
